@@ -90,6 +90,10 @@ func genC06Plan(seed uint64, tier string, mode string) *C06Plan {
 		first := []C06Step{{Ops: []C06Op{{Branch: 0, Phase: "prepare"}}}, {Ops: []C06Op{{Branch: 1, Phase: "prepare"}}}}
 		p.Steps = append(first, p.Steps...)
 		p.Faults = []DBFault{{Class: "commit", Nth: 1, Kind: simkit.Pick(g, []string{"error", "badconn"}), Num: 1205}}
+		if g.Bool() {
+			// ... or unable to open its fence transaction (the second BEGIN)
+			p.Faults = []DBFault{{Class: "begin", Nth: 2, Kind: simkit.Pick(g, []string{"error", "badconn"}), Num: 1205}}
+		}
 	}
 	return p
 }
